@@ -41,6 +41,10 @@ var (
 	// Use errors.Is to check if returned error is ErrStringFormDisabled.
 	ErrStringFormDisabled = errors.New("string form disabled")
 
+	// ErrUnexpectedData is wrapped and returned by DefaultParser if JSON input contains other data after the first JSON value.
+	// Use errors.Is to check if returned error is ErrUnexpectedData.
+	ErrUnexpectedData = errors.New("unexpected data after JSON value")
+
 	// ErrMissingValueKey is wrapped and returned by DefaultParser if RuleEnableJSONObjectForm is present and input contains JSON object without "value" key.
 	// Use errors.Is to check if returned error is ErrMissingValueKey.
 	ErrMissingValueKey = errors.New("missing value key")
